@@ -64,6 +64,23 @@ def generate(scratch):
     out.append("def primAliasTab : List (String × Option Prim) := [")
     out.append(",\n".join(f"  ({json.dumps(n)}, {'some ' + lean_prim(al[n]) if al.get(n) in PRIMS else 'none'})" for n in cands) + "]")
     out.append("")
+    # GetJsonDataType on one step per non-primitive shape (a fixed package, validated and walked by the real front end)
+    kdir = scratch.path("kinds_pkg")
+    os.makedirs(kdir, exist_ok=True)
+    open(os.path.join(kdir, "_package.yml"), "w").write("namespace: Kinds\n")
+    open(os.path.join(kdir, "model.yml"), "w").write(
+        "E: !enum\n  values: [a]\nF: !flags\n  values: [a]\nR: !record\n  fields:\n    a: int\nG<T>: !record\n  fields:\n    a: T\n"
+        "AE: E\nAV: int*\n"
+        "P: !protocol\n  sequence:\n    enum: E\n    flags: F\n    record: R\n    vector: int*\n    fixedVector: int*3\n    arrayDynamic: int[]\n"
+        "    arrayRank: int[,]\n    arrayFixed: int[2,3]\n    mapStringKey: string->int\n    mapIntKey: int->int\n    genericRecord: G<int>\n"
+        "    aliasOfEnum: AE\n    aliasOfVector: AV\n")
+    kd = json.loads(subprocess.run([inproc, "dump", kdir], stdout=subprocess.PIPE, check=True).stdout)
+    ksteps = kd.get("protocols", {}).get("P", {}).get("steps", [])
+    t["compoundKinds"] = {s_["name"]: (s_["jsonKind"] if not s_.get("panic") else 0) for s_ in ksteps}
+    out.append("/-- `GetJsonDataType` executed on the step types of a fixed package: one step per non-primitive shape. -/")
+    out.append("def compoundKindTab : List (String × Nat) := [")
+    out.append(",\n".join(f"  ({json.dumps(s_['name'])}, {s_['jsonKind'] if not s_.get('panic') else 0})" for s_ in ksteps) + "]")
+    out.append("")
     out.append("end Yardl.Generated")
     with open(os.path.join(gen_dir, "Tables.lean"), "w") as f:
         f.write("\n".join(out) + "\n")
